@@ -359,6 +359,15 @@ carquet_status_t carquet_read_data_page_v1(
     if (def_levels && reader->max_def_level > 0) {
         non_null_count = 0;
         for (int32_t i = 0; i < num_values; i++) {
+            /* The bit width leaves room for levels above the maximum; a row
+             * with such a level would count as present for a caller while no
+             * value was decoded for it */
+            if (def_levels[i] > reader->max_def_level) {
+                CARQUET_SET_ERROR(error, CARQUET_ERROR_DECODE,
+                    "Definition level %d above maximum %d",
+                    def_levels[i], reader->max_def_level);
+                return CARQUET_ERROR_DECODE;
+            }
             if (def_levels[i] == reader->max_def_level) {
                 non_null_count++;
             }
